@@ -408,6 +408,12 @@ fn episode(ctx: &Ctx, case: u64, out: &mut Out) {
                 out.count(if cut_any { "states_with_unsynced_suffix_lost" } else { "states_without_loss" }, 1);
             }
             if let Err(f) = res {
+                out.count("violations_seen", 0);
+                if out.violations.iter().filter(|v| v.sig == f.sig).count() >= 3 || out.violations.len() >= 50 {
+                    // enough witnesses of this kind are kept already
+                    out.count("violations_seen", 1);
+                    continue;
+                }
                 // rebuild the pristine state for the witness
                 let _ = std::fs::remove_dir_all(&crash);
                 std::fs::create_dir_all(&crash).unwrap();
